@@ -62,7 +62,7 @@ var documented = map[string][]string{
 type c14Cell struct {
 	Method string // Publish PublishRetained Subscribe SubscribeLimitAtMostOnce SubscribeLimitAtLeastOnce Unsubscribe Ping Disconnect PublishAtLeastOnce … PublishExactlyOnceRetained
 	State  string // pending-ok pending-fail down online closed
-	Place  string // none write-fail-0 write-fail-mid write-fail-last write-expire-0 response-lost response-malformed response-illegal-code response-failed close-during-write close-awaiting
+	Place  string // none write-fail-0 write-fail-mid write-fail-last write-expire-0 response-lost response-malformed response-illegal-code response-failed close-during-write close-awaiting close-error
 	Quit   string // nil closed-before during-write awaiting-response
 	Arg    string // valid invalid
 	Store  bool   // Save fails (persisted)
@@ -118,6 +118,10 @@ func genCell(r *rand.Rand) c14Cell {
 		}
 		if kind == "Subscribe" {
 			places = append(places, "response-malformed", "response-illegal-code", "response-failed")
+		}
+		if kind == "Disconnect" {
+			// the packet goes out, then the transport's Close complains
+			places = append(places, "close-error", "close-error")
 		}
 		c.Place = places[r.Intn(len(places))]
 	}
@@ -320,6 +324,9 @@ func runCell(c *run.Ctx, cell c14Cell) {
 	w.Mu.Lock()
 	storeFail = cell.Store
 	reqMade = true
+	if cell.Place == "close-error" {
+		w.CloseErr = errors.New("sim: close: transport complains")
+	}
 	w.Mu.Unlock()
 
 	topic := marker
